@@ -54,6 +54,7 @@ type LockMon struct {
 	yields    uint64
 	// deadlock report
 	deadlock string
+	leakReported bool
 	descending []string // descending non-fresh acquires (diagnostic)
 	// per-goroutine retry accounting
 	retry    map[int64]*retryState
@@ -83,6 +84,7 @@ func (m *LockMon) Reset(yieldSeed uint64, wantSites bool) {
 	m.fp, m.events, m.yields = 0, 0, 0
 	m.yieldSeed = yieldSeed
 	m.deadlock = ""
+	m.leakReported = false
 	m.descending = nil
 	m.retry = map[int64]*retryState{}
 	m.maxRetry = 0
@@ -163,6 +165,15 @@ func hookEvent(ev int, t interface{}, inum uint64) {
 	doYield := false
 	switch ev {
 	case vh.EvBegin:
+		// a goroutine serves one RPC at a time and every transaction releases
+		// its locks at commit/abort: an older transaction of this goroutine
+		// that still holds locks has been abandoned and will never release
+		for _, o := range m.txns {
+			if o != ts && o.gid == ts.gid && len(o.held) > 0 && !m.leakReported {
+				m.leakReported = true
+				m.deadlock = fmt.Sprintf("transaction %d of goroutine %d was abandoned while holding inode locks %v (a new transaction begins on the same goroutine): those locks are never released", o.id, o.gid, o.held)
+			}
+		}
 		rs := m.retry[ts.gid]
 		if rs == nil {
 			rs = &retryState{commitsAtStart: m.commits}
@@ -175,6 +186,11 @@ func hookEvent(ev int, t interface{}, inum uint64) {
 		rs.begins++
 		if rs.begins > m.maxRetry {
 			m.maxRetry = rs.begins
+		}
+		if rs.begins > 1000 && m.deadlock == "" {
+			// bounded retry, in logical steps: a retry is only ever justified
+			// by somebody else's commit
+			m.deadlock = fmt.Sprintf("livelock: one request (goroutine %d) has begun %d transactions in a row while no transaction anywhere committed", ts.gid, rs.begins)
 		}
 	case vh.EvShrinkIter:
 		ts.isShrink = true
@@ -400,4 +416,15 @@ func (m *LockMon) findCycle() string {
 		}
 	}
 	return ""
+}
+
+// NoteRPC marks the start of a request on the calling goroutine (direct
+// adapter; with the rpc adapter every request has its own goroutine).
+func (m *LockMon) NoteRPC() {
+	g := goid()
+	m.mu.Lock()
+	if m.on {
+		delete(m.retry, g)
+	}
+	m.mu.Unlock()
 }
